@@ -963,7 +963,7 @@ Section Main.
     rewrite tr_apat_match, tr_pat_eq, Hd. cbn [dflt].
     pose proof (Htyped o oc a d Hi Hd) as Ht.
     destruct (bind_attr e p a o Hg Hp Hf) as [Hev [Hg1 [Hx1 [Hfr1 Hl1]]]].
-    unfold nested_filter, nested_var in *.
+    unfold nested_filter, nested_var in *. rewrite ?Hd. cbn [dflt].
     destruct (f_iter C oc a) eqn:Hit; destruct (type_filter C oc a t) eqn:Htf; unfold resolve_flatten in *; cbn [andb orb] in *.
     - (* collection attribute, type filter *)
       rewrite orb_true_r in *. change (match t with Some T => T | None => d end) with (ftype t d). set (T := ftype t d) in *.
@@ -1046,6 +1046,7 @@ Section Main.
       destruct (has_attr T e p a o Hg Hp Hf) as [_ Heq].
       pose proof (nest_attr l' IH d p a e o o' Hg Hp Hf Hav Ho' Hal) as Hnest. fold cs in Hnest.
       rewrite <- (filter_type_ok t d o' Ho'). fold T.
+      change (match t with Some T0 => T0 | None => d end) with T.
       unfold concl. rewrite eval_all_app, Heq. rewrite Hav. cbn [isinst].
       destruct (sub C (otype M o') T); simpl.
       + rewrite app_nil_r. rewrite Hav in Hnest. destruct Hnest as [[Hc1 Hc2] Hc3]. split; auto.
@@ -1406,7 +1407,7 @@ Section Main.
     change (srows_apat (sub C) M s (PMatch (Pat t l')) (attr W o a)) with (srows_pat (sub C) M s (Pat t l') (attr W o a)).
     rewrite sels_pat_eq, tr_apat_match, tr_pat_eq, Hd. cbn [dflt].
     pose proof (Htyped o oc a d Hi Hd) as Ht.
-    unfold nested_filter, nested_var in *.
+    unfold nested_filter, nested_var in *. rewrite ?Hd. cbn [dflt].
     destruct (f_iter C oc a) eqn:Hit; destruct (type_filter C oc a t) eqn:Htf; unfold resolve_flatten in *; cbn [andb orb] in *.
     - (* collection, type filter *)
       rewrite orb_true_r in *. change (match t with Some T => T | None => d end) with (ftype t d). set (T := ftype t d) in *.
@@ -1443,6 +1444,7 @@ Section Main.
       change (match t with Some T => T | None => d end) with (ftype t d). set (T := ftype t d) in *.
       rewrite Hobj in Ht. destruct Ht as [o' [Hav Ho']].
       rewrite Hav, srows_pat_obj. rewrite <- (filter_type_ok t d o' Ho'). fold T.
+      change (match t with Some T0 => T0 | None => d end) with T.
       destruct (has_attr T e p a o Hg Hp Hf) as [_ Heq].
       destruct (nest_attr_hyps p a e o Hg Hp Hf) as [Hg1 [Hl1 Hf1]].
       apply (rows_one s _ (tr_alist C d (PAttr p a) l') _ (sub C (otype M o') T) (srows_alist (sub C) M l' o') p a e o o' Hg Hp Hav).
@@ -1855,3 +1857,31 @@ Proof.
   - intros H. apply filter_In in H. tauto.
   - intros p v H. discriminate.
 Qed.
+
+(* ------------------------------------------------------------------ no error while the pattern is built *)
+Lemma no_unk C objcls :
+  (forall q oc p a, fok_pat C objcls false oc p a q = true -> unk_pat C oc a q = false) /\
+  (forall l oc p, fok_alist C objcls false oc p l = true -> unk_alist C oc l = false) /\
+  (forall c oc p a, fok_apat C objcls false oc p a c = true -> is_some (f_type C oc a) = true /\ unk_apat C oc a c = false).
+Proof.
+  apply pat_mutind.
+  - intros t l IH oc p a. rewrite fok_pat_eq. cbv zeta. intros H. apply andb_true_iff in H. destruct H as [_ Hal].
+    simpl. eapply IH. exact Hal.
+  - reflexivity.
+  - intros a c IHc rest IHr oc p. rewrite fok_alist_cons. intros H.
+    apply andb_true_iff in H. destruct H as [H Hr]. apply andb_true_iff in H. destruct H as [_ Hc].
+    destruct (IHc _ _ _ Hc) as [Hs Hu].
+    change (unk_alist C oc (ACons a c rest)) with (negb (is_some (f_type C oc a)) || unk_apat C oc a c || unk_alist C oc rest).
+    rewrite Hs, Hu, (IHr _ _ Hr). reflexivity.
+  - intros v oc p a H. simpl in H. apply andb_true_iff in H. tauto.
+  - intros [t l] IH oc p a H. split; [|eapply IH; exact H].
+    change (fok_apat C objcls false oc p a (PMatch (Pat t l))) with (fok_pat C objcls false oc p a (Pat t l)) in H.
+    rewrite fok_pat_eq in H. cbv zeta in H. repeat (apply andb_true_iff in H; destruct H as [H _]). exact H.
+  - intros v oc p a H. simpl in H. apply andb_true_iff in H. destruct H as [H _]. tauto.
+  - intros v oc p a H. simpl in H. repeat (apply andb_true_iff in H; destruct H as [H _]). tauto.
+  - intros v oc p a H. discriminate H.
+  - intros c IH oc p a H. simpl in H. destruct c; try discriminate; simpl; apply (IH oc p a); exact H.
+Qed.
+
+Theorem no_build_error C objcls T l : F11lax C objcls T l = true -> build_raises C T l = false.
+Proof. intros H. apply (proj1 (proj2 (no_unk C objcls)) l T PRoot). exact H. Qed.
